@@ -1,50 +1,48 @@
 (* C20  No client byte sequence can crash or wedge a connection.  Property theorems only.
-   The unchanged code does NOT satisfy the property outright: four classes of client input still
-   panic (known findings D14, listed in /verif/known_findings.json).  Accordingly:
-     - C20_terminates:     for ALL inputs the connection terminates (no loop runs forever);
-     - C20_only_known:     for ALL inputs, every panic is one of the listed known sites
-                           (for shims that cannot panic by themselves);
-     - C20_*_refuted:      each listed site is really reachable (witness replays, also run on the real code). *)
+   (On the tree as found this was false in six ways -- D5, D6, D9 and the four D14 classes, see
+   known_findings.json -> fixed; all are repaired and their replays are re-run first by ./check C20.) *)
 From MsqlVerif Require Import Model.Server Model.ErrTab Proofs.Totality Proofs.Witnesses.
 Open Scope N_scope.
 
-(* termination: for EVERY world (any bytes, any chunking, any fault plan), configuration and shim
-   script, the fuel computed from the input suffices -- none of the loops (write_all, packet
-   reassembly, next, the command loop) runs forever *)
+(* NEVER A PANIC: for EVERY world -- any client bytes (malformed handshakes, unknown or truncated
+   commands, inconsistent parameter blocks, out-of-order fragment ids, any sequence id), any chunking,
+   any transport fault plan -- every configuration and every shim that does not panic by itself
+   (no From<Value> conversion requested, only defined error kinds, no NULL hidden in a Some) *)
+Theorem C20_never_panics : forall fpext fptrunc errtab cfg sc s p,
+  scripts_tame errtab sc ->
+  fst (run_on fpext fptrunc errtab cfg sc s) <> RPanic p.
+Proof. exact run_on_never_panics_tame. Qed.
+
+(* NEVER WEDGED: for every world, configuration and shim script whatsoever, the fuel computed from
+   the input suffices -- none of the loops (write_all, packet reassembly, next, the command loop)
+   runs forever *)
 Theorem C20_terminates : forall fpext fptrunc errtab cfg sc s,
   fst (run_on fpext fptrunc errtab cfg sc s) <> RPanic POutOfFuel.
 Proof. exact run_on_total. Qed.
-
-(* every panic, for every input, is at one of the named sites *)
-Theorem C20_panic_sites : forall fpext fptrunc errtab cfg sc s p,
-  fst (run_on fpext fptrunc errtab cfg sc s) = RPanic p -> In p (client_sites ++ shim_sites).
-Proof. exact run_on_panics. Qed.
-
-(* ... and when the shim cannot panic by itself (no From<Value> conversion requested, only defined
-   error kinds, no NULL hidden in a Some), ONLY the known client-reachable sites remain:
-   malformed COM_STMT_EXECUTE parameter blocks (D14; PFragSeq is listed in client_sites but has been
-   unreachable since the D9 fix: next() never panics, see Proofs/Totality.v next_panics) *)
-Theorem C20_only_known : forall fpext fptrunc errtab cfg sc s p,
-  scripts_tame errtab sc ->
-  fst (run_on fpext fptrunc errtab cfg sc s) = RPanic p -> In p client_sites.
-Proof. exact run_on_panics_tame. Qed.
-
 (* each reading loop consumes input: a packet costs at least its 4 header bytes *)
 Theorem C20_progress : forall s x s',
   next s = (ROk (Some x), s') -> (inbound_len s' + 4 <= inbound_len s)%nat.
 Proof. exact next_consumes. Qed.
 
-(* the known findings are real: concrete client byte streams (corpus/KF_*.case) on which the model
-   -- and, replayed by ./check C20, the real code -- panics at exactly the listed site *)
-Theorem C20_params_split_refuted :
-  fst (run_on idN idN errtab cfg0 kf_params_split_scripts kf_params_split_world) = RPanic PParamsSplitNull.
-Proof. exact kf_params_split_panics. Qed.
-Theorem C20_params_bad_type_refuted :
-  fst (run_on idN idN errtab cfg0 kf_params_bad_type_scripts kf_params_bad_type_world) = RPanic PParamsBadType.
-Proof. exact kf_params_bad_type_panics. Qed.
-Theorem C20_params_bound_index_refuted :
-  fst (run_on idN idN errtab cfg0 kf_params_bound_index_scripts kf_params_bound_index_world) = RPanic PParamsBoundIndex.
-Proof. exact kf_params_bound_index_panics. Qed.
-Theorem C20_params_value_refuted :
-  fst (run_on idN idN errtab cfg0 kf_params_value_scripts kf_params_value_world) = RPanic PParamsValue.
-Proof. exact kf_params_value_panics. Qed.
+(* for arbitrary shims: every panic is at one of the named sites, and the only ones a shim can cause
+   are its own (conversion of a mistyped parameter, undefined error kind, NULL below a Some) *)
+Theorem C20_panic_sites : forall fpext fptrunc errtab cfg sc s p,
+  fst (run_on fpext fptrunc errtab cfg sc s) = RPanic p -> In p (client_sites ++ shim_sites).
+Proof. exact run_on_panics. Qed.
+
+(* the inputs that used to panic (corpus/D14_*.case, D9_*.case) are now answered with an error *)
+Theorem C20_params_split_is_error :
+  fst (run_on idN idN errtab cfg0 d14_params_split_scripts d14_params_split_world) = RErr EInvalidData.
+Proof. exact d14_params_split_is_error. Qed.
+Theorem C20_params_bad_type_is_error :
+  fst (run_on idN idN errtab cfg0 d14_params_bad_type_scripts d14_params_bad_type_world) = RErr EInvalidData.
+Proof. exact d14_params_bad_type_is_error. Qed.
+Theorem C20_params_bound_index_is_error :
+  fst (run_on idN idN errtab cfg0 d14_params_bound_index_scripts d14_params_bound_index_world) = RErr EInvalidData.
+Proof. exact d14_params_bound_index_is_error. Qed.
+Theorem C20_params_value_is_error :
+  fst (run_on idN idN errtab cfg0 d14_params_value_scripts d14_params_value_world) = RErr EInvalidData.
+Proof. exact d14_params_value_is_error. Qed.
+Theorem C20_fragment_ids_is_error :
+  fst (run_on idN idN errtab cfg0 d9_fragment_ids_scripts d9_fragment_ids_world) = RErr EInvalidData.
+Proof. exact d9_fragment_ids_is_error. Qed.
